@@ -11,6 +11,7 @@ import (
 	"io"
 	"io/fs"
 	"os"
+	"sync"
 	"syscall"
 
 	"verifsim/inject/simrt"
@@ -33,7 +34,11 @@ type verdict struct {
 }
 
 // begin numbers and logs one operation and returns the fault planned for it.
+var opMu sync.Mutex
+
 func begin(call, path string, size int) verdict {
+	opMu.Lock()
+	defer opMu.Unlock()
 	opCount++
 	var hit *simrt.Fault
 	for i := range simrt.ThePlan.Faults {
